@@ -4,6 +4,7 @@ package keeper
 // C17 — the delegate-key registry is one-to-one and self-authorised.
 
 import (
+	"crypto/ecdsa"
 	"bytes"
 
 	sdk "github.com/cosmos/cosmos-sdk/types"
@@ -67,6 +68,17 @@ func ZZ_C16_Confirm() {
 		s := vrt.Bytes("oldsig.b", 2)
 		k.SetExternalSignature(ctx, chain, &types.BatchTxConfirmation{ExternalTokenId: zzEthTokB, BatchNonce: bNonceB, Signature: s}, vs[1].Oper)
 		stored = append(stored, zzStoredSig{idxB, 1, s})
+	}
+	// validator 0 (the one with an orchestrator) may have confirmed one of them already
+	switch vrt.Choose("v0.signed", 3) {
+	case 1:
+		s := vrt.Bytes("oldsig0.ss", 2)
+		k.SetExternalSignature(ctx, chain, &types.SignerSetTxConfirmation{SignerSetNonce: ssNonce, Signature: s}, vs[0].Oper)
+		stored = append(stored, zzStoredSig{idxSS, 0, s})
+	case 2:
+		s := vrt.Bytes("oldsig0.a", 2)
+		k.SetExternalSignature(ctx, chain, &types.BatchTxConfirmation{ExternalTokenId: zzEthTokA, BatchNonce: bNonceA, Signature: s}, vs[0].Oper)
+		stored = append(stored, zzStoredSig{idxA, 0, s})
 	}
 	// the message
 	signers := []sdk.AccAddress{orch, stranger, sdk.AccAddress(vs[0].Oper), sdk.AccAddress(vs[1].Oper)}
@@ -200,6 +212,21 @@ func ZZ_C17_DelegateKeys() {
 	}
 	var opers []sdk.ValAddress
 	var binds []binding
+	// native replay: signatures cannot be forged, so the new external key is a real test key; an existing binding
+	// that the solver made equal to the new external address is mapped to that key's address as well
+	solverExt := common.BytesToAddress(vrt.Bytes("newext", 20))
+	realExt := solverExt
+	var zzKey *ecdsa.PrivateKey
+	if !vrt.Symbolic() {
+		zzKey, _ = crypto.HexToECDSA("b71c71a67e1177ad4e901695e1b4b9ee17ae16c6668d313eac2f96dbcda3f291")
+		realExt = crypto.PubkeyToAddress(zzKey.PublicKey)
+	}
+	mapExt := func(a common.Address) common.Address {
+		if !vrt.Symbolic() && a == solverExt {
+			return realExt
+		}
+		return a
+	}
 	for i := 0; i < 3; i++ {
 		s := string(rune('0' + i))
 		oper := sdk.ValAddress(vrt.Bytes("oper"+s, 20))
@@ -215,7 +242,7 @@ func ZZ_C17_DelegateKeys() {
 			maxBound = 2
 		}
 		if i < maxBound && vrt.Bool("bound"+s) {
-			b = binding{ext: common.BytesToAddress(vrt.Bytes("ext"+s, 20)), orch: sdk.AccAddress(vrt.Bytes("orch"+s, 20)), has: true}
+			b = binding{ext: mapExt(common.BytesToAddress(vrt.Bytes("ext"+s, 20))), orch: sdk.AccAddress(vrt.Bytes("orch"+s, 20)), has: true}
 			for _, o := range binds { // the registry is one-to-one per chain (invariant)
 				if o.has {
 					vrt.Assume(o.ext != b.ext && !o.orch.Equals(b.orch))
@@ -249,13 +276,11 @@ func ZZ_C17_DelegateKeys() {
 	}
 	newOrch := sdk.AccAddress(vrt.Bytes("neworch", 20))
 	seq := vrt.Uint64Below("sequence", 1<<56)
-	newExt := common.BytesToAddress(vrt.Bytes("newext", 20))
+	newExt := realExt
 	sig := vrt.Bytes("sig", 65)
 	if !vrt.Symbolic() {
-		// native replay: signatures cannot be forged, so the external key is a real test key and the signature
-		// is a real one over (validator, sequence-1); everything else comes from the solver's assignment
-		key, _ := crypto.HexToECDSA("b71c71a67e1177ad4e901695e1b4b9ee17ae16c6668d313eac2f96dbcda3f291")
-		newExt = crypto.PubkeyToAddress(key.PublicKey)
+		// the signature is a real one over (validator, sequence-1); everything else comes from the solver's assignment
+		key := zzKey
 		n := uint64(0)
 		if seq > 0 {
 			n = seq - 1
